@@ -108,7 +108,9 @@ func runCrash(c Case, cc *kit.Case) {
 		}
 	}
 	target := c.Ops[n-1]
-	if target.K == "restart" {
+	if target.K == "restart" || target.K == "feed" {
+		// (a feed is no request to the catalogue; the error of an execution it ends is recorded
+		// asynchronously, after the write was answered)
 		return
 	}
 	pre := r.m.clone()
@@ -350,7 +352,7 @@ func genCrash(r *kit.Rec) func(t *rapid.T) Case {
 		ops, sh := genHistory(t, r, excludedCatalogue, n, false)
 		for tries := 0; tries < 20; tries++ {
 			op := drawTarget(t, r, sh)
-			if op.K == "restart" {
+			if op.K == "restart" || op.K == "feed" {
 				continue
 			}
 			p := predict(sh, op)
